@@ -5,10 +5,12 @@ import Driver.Txt
 import Driver.Accept
 import Driver.View
 import Driver.Avahi
+import Driver.Hub
 
 def main (args : List String) : IO UInt32 := do
   match args with
   | "reach" :: rest => Driver.reachMain rest
+  | ["hub"] => Driver.Hub.hubMain
   | ["avahi"] => Driver.Avahi.avahiMain
   | ["view"] => Driver.View.viewMain
   | ["accept"] => Driver.Accept.acceptMain
